@@ -249,6 +249,8 @@ def _run(chk: core.Check, enc: Enc, tier: str) -> None:
             sv.pop()
             real_us = parse_us(real_to_pv(1000 * kv))
             validated += 1
+            if len(chk.samples) < 6 and kv not in (klo, khi):
+                chk.samples.append({"validation_point_us": kv, "encoding_gives_us": enc_us, "real_function_gives": real_to_pv(1000 * kv)})
             if enc_us == kv and not twin_done:
                 # vacuity twin at a concrete point: the encoding reaches the assertion and satisfies it there
                 twin_done = True
